@@ -97,10 +97,11 @@ func showCTCP(c *girc.CTCPEvent) string {
 }
 
 var (
-	ctcpKnown    = []string{"PING", "PONG", "VERSION", "SOURCE", "TIME", "FINGER"}
-	ctcpOtherOK  = []string{"ACTION", "ERRMSG", "CLIENTINFO", "USERINFO", "DCC", "FOO", "X1", "123", "A"}
-	ctcpBadCmds  = []string{"ping", "Version", "tIME", "PING!", "PI\x01NG", "", "\xc3\x89", "P-NG", "PING\t", "@", "[", "`", "/", ":", "FINGEr", "action"}
-	ctcpTexts    = []string{"", "123456", " lead", "a b c", "\x01", "x\x01y", ":colon", "\xff\xfe", "trailing ", "  ", "\xe2\x82\xac uro", "1 2", "\x01\x01", "a\rb", "q\xc3"}
+	ctcpKnown   = []string{"PING", "PONG", "VERSION", "SOURCE", "TIME", "FINGER"}
+	ctcpOtherOK = []string{"ACTION", "ERRMSG", "CLIENTINFO", "USERINFO", "DCC", "FOO", "X1", "123", "A"}
+	ctcpBadCmds = []string{"ping", "Version", "tIME", "PING!", "PI\x01NG", "", "\xc3\x89", "P-NG", "PING\t", "@", "[", "`", "/", ":", "FINGEr", "action"}
+	ctcpTexts   = []string{"", "123456", " lead", "a b c", "\x01", "x\x01y", ":colon", "\xff\xfe", "trailing ", "  ", "\xe2\x82\xac uro", "1 2", "\x01\x01", "a\rb", "q\xc3",
+		"a\nb", "a\r\nb", "\r", "1\rPRIVMSG #chan :\x01VERSION\x01", "x\rNICK owned", "1\nPRIVMSG #chan :hi", "\rQUIT"}
 	ctcpSrcNames = []string{"nick", "Nick[x]", "N\\ick^", "irc.server.net", "a", "9bad", "", "sp ace", "\xc3\xbc", "\xff", "x-y", "?znc", "-dash", "A_{}|", "NICK", "~tilde", "n\xc3", ":c", "me", "ME", "a^b"}
 	ctcpTargets  = []string{"me", "#chan", "ME", "&c", "", "#Chan", "other"}
 )
@@ -445,9 +446,24 @@ func lineSafeName(n string) bool {
 
 // replyOracle is the reply discipline of the statement evaluated on what the client
 // wrote for e (default table).
+// singleLine: what was written for one event must not contain a CR or LF before its
+// terminator - an IRC server ends a message at either, so anything after it would be a second
+// message of the requester's choosing (lines are the written bytes cut at LF, terminator removed).
+func singleLine(lines []string) string {
+	for _, l := range lines {
+		if strings.ContainsAny(l, "\r\n") {
+			return fmt.Sprintf("reply-not-single-line: the bytes written for one answer hold a line break: %q", l)
+		}
+	}
+	return ""
+}
+
 func replyOracle(x *ctcpSess, e *girc.Event, lines []string) string {
 	if len(lines) == 0 {
 		return ""
+	}
+	if o := singleLine(lines); o != "" {
+		return o
 	}
 	l := lines[0]
 	if len(lines) > 1 {
@@ -729,7 +745,7 @@ func init() {
 			return append(Case{Pick(r, "0", "0", "1", "4")}, genCTCPLine(r, true)...)
 		},
 		Run: func(c Case) Result {
-			if len(c) < 6 || !strings.HasSuffix(c[1], "\n") || strings.ContainsAny(strings.TrimRight(c[1], "\r\n"), "\r\n") {
+			if len(c) < 6 || !strings.HasSuffix(c[1], "\n") || strings.Contains(strings.TrimRight(c[1], "\r\n"), "\n") {
 				return Result{Obs: "?args"}
 			}
 			x := ctcpSession(c[0])
@@ -780,6 +796,9 @@ func init() {
 					res.Oracle = "send-panic: SendCTCP panicked on a non-empty CTCP type"
 				}
 				return res
+			}
+			if o := singleLine(lines); o != "" {
+				return Result{Obs: HexList(lines), Oracle: o, Sig: "linebreak"}
 			}
 			if len(lines) != 1 {
 				return Result{Obs: HexList(lines), Oracle: fmt.Sprintf("send-count: %d lines for one SendCTCP", len(lines)), Sig: "count"}
@@ -926,7 +945,7 @@ func init() {
 			}
 			ev := genCTCPEvent(r, true)
 			if r.Intn(3) == 0 && len(ev) == 5 {
-				ev[4] = "\x01" + Pick(r, "FOO", "FOO1", "I", "S", "SOURCE", "ACTION", "VERSION", "PING", "ERRMSG", "X") + Pick(r, "", " ", " a b", " |x|") + "\x01"
+				ev[4] = "\x01" + Pick(r, "FOO", "FOO1", "I", "S", "SOURCE", "ACTION", "VERSION", "PING", "ERRMSG", "X") + Pick(r, "", " ", " a b", " |x|", " a\rb", " 1\rPRIVMSG #chan :hi", " a\nb", " \r\n") + "\x01"
 			}
 			return append(c, ev...)
 		},
@@ -1046,7 +1065,7 @@ func genCTCPLine(r *rand.Rand, wire bool) Case {
 		body = genCTCPText(r)
 	default:
 		c := Pick(r, append(append([]string{}, ctcpKnown...), "ACTION", "FOO", "X1", "ping")...)
-		body = "\x01" + c + Pick(r, "", "", " ", " 123", " a b", " trailing  ") + "\x01"
+		body = "\x01" + c + Pick(r, "", "", " ", " 123", " a b", " trailing  ", " a\rb", " 1\rPRIVMSG #chan :\x01VERSION\x01", " \r", " x\rNICK owned") + "\x01"
 	}
 	text := body
 	if r.Intn(5) < 3 {
@@ -1054,8 +1073,8 @@ func genCTCPLine(r *rand.Rand, wire bool) Case {
 	}
 	if wire {
 		text = strings.Map(func(c rune) rune {
-			if c == '\r' || c == '\n' {
-				return -1
+			if c == '\n' {
+				return -1 // a LF would end the line on the socket; a bare CR stays inside it
 			}
 			return c
 		}, text)
@@ -1093,6 +1112,12 @@ func ctcpLineFixed() []Case {
 			}
 			for _, ld := range []string{" ", "\t", "\u00a0", "  ", ":"} {
 				out = append(out, ctcpLineCase("alice", k, "test", ld+body, "\r\n"))
+			}
+		}
+		// a bare CR inside the text: echoed by PING, by ERRMSG-less unknown queries not at all
+		for _, body := range []string{"\x01PING a\rb\x01", "\x01PING 1\rPRIVMSG #chan :\x01VERSION\x01\x01", "\x01PING \r\x01", "\x01FOO a\rb\x01", "\x01VERSION \rx\x01"} {
+			for _, eol := range []string{"\r\n", "\n"} {
+				out = append(out, ctcpLineCase("alice", k, "test", body, eol))
 			}
 		}
 	}
@@ -1191,6 +1216,9 @@ func isUserLine(l string) (id string, ok bool) {
 
 // tableOracle: what registering handlers promises, evaluated on the lines the client wrote.
 func tableOracle(ref map[string]string, keys []string, e *girc.Event, lines []string) string {
+	if o := singleLine(lines); o != "" {
+		return o
+	}
 	want := make([]string, 0, len(ref))
 	for k := range ref {
 		want = append(want, k)
